@@ -9,6 +9,7 @@ import (
 	g "github.com/zenon-network/go-zenon/chain/genesis/mock"
 	"github.com/zenon-network/go-zenon/chain/nom"
 	"github.com/zenon-network/go-zenon/common"
+	"github.com/zenon-network/go-zenon/common/crypto"
 	"github.com/zenon-network/go-zenon/common/db"
 	"github.com/zenon-network/go-zenon/common/types"
 	"github.com/zenon-network/go-zenon/verifier"
@@ -84,6 +85,7 @@ type contractRun struct {
 	htlcs     []*definition.HtlcInfo
 	deadIds   []types.Hash // ids of entries that were released (for repeated attempts)
 	preimages map[types.Hash][]byte
+	proxy     map[types.Address]bool // htlc: explicit proxy-unlock settings seen in confirmed receives
 	touched   map[types.Address]bool
 	tokens    map[types.ZenonTokenStandard]bool
 	dumped    bool
@@ -168,6 +170,28 @@ func decodeCall(contract types.Address, data []byte) *decoded {
 			if ca.abi.UnpackMethod(&d.id, m.Name, data) == nil {
 				d.args, d.modelled = []string{h8z(d.id)}, true
 			}
+		}
+	case types.HtlcContract:
+		switch m.Name {
+		case definition.CreateHtlcMethodName:
+			p := new(definition.CreateHtlcParam)
+			if ca.abi.UnpackMethod(p, m.Name, data) == nil {
+				d.htlc = p
+				d.args, d.modelled = []string{addrName(p.HashLocked), fmt.Sprint(p.ExpirationTime), fmt.Sprint(p.HashType), fmt.Sprint(p.KeyMaxSize), hxOrDash(p.HashLock)}, true
+			}
+		case definition.ReclaimHtlcMethodName:
+			if ca.abi.UnpackMethod(&d.id, m.Name, data) == nil {
+				d.args, d.modelled = []string{h8z(d.id)}, true
+			}
+		case definition.UnlockHtlcMethodName:
+			p := new(definition.UnlockHtlcParam)
+			if ca.abi.UnpackMethod(p, m.Name, data) == nil {
+				d.id, d.preimage = p.Id, p.Preimage
+				// the hash functions are parameters of the model: the harness supplies both digests of the preimage
+				d.args, d.modelled = []string{h8z(p.Id), hxOrDash(p.Preimage), hx(crypto.Hash(p.Preimage)), hx(crypto.HashSHA256(p.Preimage))}, true
+			}
+		case definition.DenyHtlcProxyUnlockMethodName, definition.AllowHtlcProxyUnlockMethodName:
+			d.args, d.modelled = []string{}, true
 		}
 	}
 	return d
@@ -351,6 +375,102 @@ func (r *contractRun) monitorReceive(b, send *nom.AccountBlock, d *decoded, stat
 				r.fail("liveness: matured Cancel of %s by its owner was refused at frontier time %d (locked until %d)", key, ackT, lk.matureT)
 			}
 		}
+	case types.HtlcContract:
+		switch d.method {
+		case definition.CreateHtlcMethodName:
+			if ok {
+				key := lockKey(b.Address, "htlc", h8z(send.Hash))
+				r.locks[key] = &lockRec{contract: b.Address, kind: "htlc", key: key, entitled: send.Address, second: d.htlc.HashLocked, tok: send.TokenStandard,
+					amount: new(big.Int).Set(send.Amount), matureT: d.htlc.ExpirationTime, hashType: d.htlc.HashType, keyMax: d.htlc.KeyMaxSize, hashLock: append([]byte{}, d.htlc.HashLock...)}
+				if len(b.DescendantBlocks) != 0 {
+					r.fail("release: Create(htlc) produced %d descendant blocks", len(b.DescendantBlocks))
+				}
+				if ackT >= d.htlc.ExpirationTime {
+					r.fail("release: htlc %s was created at frontier time %d although it expires at %d", key, ackT, d.htlc.ExpirationTime)
+				}
+			}
+		case definition.ReclaimHtlcMethodName:
+			key := lockKey(b.Address, "htlc", h8z(d.id))
+			lk := r.locks[key]
+			if ok {
+				var to types.Address
+				if lk != nil {
+					to = lk.entitled
+				}
+				r.releaseCheck(b, "Reclaim", lk, key, to, 0, h)
+				if lk != nil {
+					if send.Address != lk.entitled {
+						r.fail("release: Reclaim of %s was called by %s, only the time-locked party %s may reclaim", key, addrName(send.Address), addrName(lk.entitled))
+					}
+					if ackT < lk.matureT {
+						r.fail("release: Reclaim of %s succeeded at frontier time %d, before its expiration %d", key, ackT, lk.matureT)
+					}
+				}
+				if len(b.DescendantBlocks) != 1 {
+					r.fail("release: Reclaim produced %d descendant blocks", len(b.DescendantBlocks))
+				}
+				r.deadIds = append(r.deadIds, d.id)
+			} else if lk != nil && lk.paidAt == 0 && send.Address == lk.entitled && ackT >= lk.matureT && send.Amount.Sign() == 0 {
+				r.fail("liveness: Reclaim of the expired htlc %s by its time-locked party was refused at frontier time %d (expired at %d)", key, ackT, lk.matureT)
+			}
+		case definition.UnlockHtlcMethodName:
+			key := lockKey(b.Address, "htlc", h8z(d.id))
+			lk := r.locks[key]
+			preimageOk := func() bool {
+				if lk == nil || len(d.preimage) > int(lk.keyMax) {
+					return false
+				}
+				var hp []byte
+				if lk.hashType == definition.HashTypeSHA3 {
+					hp = crypto.Hash(d.preimage)
+				} else if lk.hashType == definition.HashTypeSHA256 {
+					hp = crypto.HashSHA256(d.preimage)
+				}
+				return string(hp) == string(lk.hashLock)
+			}
+			allowed := func() bool {
+				if lk == nil {
+					return false
+				}
+				if send.Address == lk.second {
+					return true
+				}
+				v, set := r.proxy[lk.second]
+				return !set || v
+			}
+			if ok {
+				var to types.Address
+				if lk != nil {
+					to = lk.second
+				}
+				r.releaseCheck(b, "Unlock", lk, key, to, 0, h)
+				if lk != nil {
+					if !allowed() {
+						r.fail("release: Unlock of %s was called by %s although %s has denied proxy unlocks", key, addrName(send.Address), addrName(lk.second))
+					}
+					if ackT >= lk.matureT {
+						r.fail("release: Unlock of %s succeeded at frontier time %d, it expired at %d", key, ackT, lk.matureT)
+					}
+					if !preimageOk() {
+						r.fail("release: Unlock of %s succeeded with a preimage (%d bytes, max %d) that does not hash to the lock", key, len(d.preimage), lk.keyMax)
+					}
+				}
+				if len(b.DescendantBlocks) != 1 {
+					r.fail("release: Unlock produced %d descendant blocks", len(b.DescendantBlocks))
+				}
+				r.deadIds = append(r.deadIds, d.id)
+			} else if lk != nil && lk.paidAt == 0 && allowed() && ackT < lk.matureT && preimageOk() && send.Amount.Sign() == 0 && !types.IsEmbeddedAddress(lk.second) {
+				r.fail("liveness: Unlock of %s with the correct preimage before expiry (frontier time %d < %d) was refused", key, ackT, lk.matureT)
+			}
+		case definition.DenyHtlcProxyUnlockMethodName:
+			if ok {
+				r.proxy[send.Address] = false
+			}
+		case definition.AllowHtlcProxyUnlockMethodName:
+			if ok {
+				r.proxy[send.Address] = true
+			}
+		}
 	}
 }
 
@@ -523,6 +643,39 @@ func (r *contractRun) compareState(h uint64) {
 		c.Emit("K-digest stake | %d %s", len(sl), amt(total))
 	}
 
+	// ---- htlc ----
+	{
+		st := r.storage(types.HtlcContract)
+		hl, err := definition.AllHtlcInfoVerif(st)
+		if err != nil {
+			r.fail("AllHtlcInfoVerif: %v", err)
+		}
+		sort.Slice(hl, func(i, j int) bool { return string(hl[i].Id[:]) < string(hl[j].Id[:]) })
+		r.htlcs = hl
+		for _, e := range hl {
+			if full(types.HtlcContract) {
+				c.Emit("K-htlc %s | %s %s %s %s %d %d %d %s", h8z(e.Id), addrName(e.TimeLocked), addrName(e.HashLocked), tokName(e.TokenStandard), amt(e.Amount), e.ExpirationTime, e.HashType, e.KeyMaxSize, hxOrDash(e.HashLock))
+			}
+			r.tokens[e.TokenStandard] = true
+			owed[types.HtlcContract].add(e.TokenStandard, e.Amount)
+			checkLock(lockKey(types.HtlcContract, "htlc", h8z(e.Id)), e.Amount, "htlc")
+		}
+		pl, err := definition.AllHtlcProxyUnlockInfoVerif(st)
+		if err != nil {
+			r.fail("AllHtlcProxyUnlockInfoVerif: %v", err)
+		}
+		sort.Slice(pl, func(i, j int) bool { return string(pl[i].Address[:]) < string(pl[j].Address[:]) })
+		for _, e := range pl {
+			if full(types.HtlcContract) {
+				c.Emit("K-proxy %s | %v", addrName(e.Address), e.Allowed)
+			}
+			if v, set := r.proxy[e.Address]; !set || v != e.Allowed {
+				r.fail("storage: proxy-unlock setting of %s is %v, the confirmed calls say set=%v value=%v", addrName(e.Address), e.Allowed, set, v)
+			}
+		}
+		c.Emit("K-digest htlc | %d %d", len(hl), len(pl))
+	}
+
 	// every open lock of the log must still be recorded (a lock that vanished without a payout is lost money)
 	lkeys := make([]string, 0, len(r.locks))
 	for k := range r.locks {
@@ -613,7 +766,7 @@ func contractHistory(c *Ctx, id int) {
 
 	n := NewNode()
 	defer n.Stop()
-	r := &contractRun{c: c, n: n, id: id, p: p, locks: map[string]*lockRec{}, qsrLog: map[string]*big.Int{}, preimages: map[types.Hash][]byte{},
+	r := &contractRun{c: c, n: n, id: id, p: p, locks: map[string]*lockRec{}, qsrLog: map[string]*big.Int{}, preimages: map[types.Hash][]byte{}, proxy: map[types.Address]bool{},
 		touched: map[types.Address]bool{}, tokens: map[types.ZenonTokenStandard]bool{types.ZnnTokenStandard: true, types.QsrTokenStandard: true}}
 
 	c.Emit("K-reset")
@@ -674,6 +827,20 @@ func contractHistory(c *Ctx, id int) {
 		return true
 	}
 
+	withHtlc := c.Args["htlc"] == "1" || (c.Args["htlc"] == "" && id%3 != 0)
+	if withHtlc { // htlc exists only under its spork; activated in the order accelerator -> bridge/liquidity -> htlc
+		for i, sp := range []*types.ImplementedSpork{types.AcceleratorSpork, types.BridgeAndLiquiditySpork, types.HtlcSpork} {
+			if err := n.ActivateSpork(sp, fmt.Sprintf("spork-%d", i)); err != nil {
+				r.fail("spork activation: %v", err)
+				return
+			}
+			if r.failed {
+				return
+			}
+		}
+		c.Hit("history-with-htlc")
+	}
+
 	users := []types.Address{g.User1.Address, g.User2.Address, g.User3.Address, g.User4.Address, g.User5.Address,
 		g.Pillar4.Address, g.Pillar5.Address, g.Pillar6.Address}
 	everyone := append([]types.Address{g.User6.Address, g.User7.Address, g.Pillar1.Address}, users...)
@@ -702,22 +869,28 @@ func contractHistory(c *Ctx, id int) {
 		return m.Timestamp.Unix()
 	}
 
-	steps := 60 + c.R.Intn(40)
+	steps := 70 + c.R.Intn(50)
 	if c.Tier == "thorough" {
-		steps = 150 + c.R.Intn(100)
+		steps = 180 + c.R.Intn(120)
 	}
 	if production {
 		steps = steps / 2
 	}
-	budget := 260 // momentums per history
+	budget := 300 // momentums per history
 	if c.Tier == "thorough" {
-		budget = 700
+		budget = 800
 	}
 	start := n.Height()
-	for s := 0; s < steps && !r.failed && int(n.Height()-start) < budget; s++ {
-		x := c.R.Intn(100)
-		switch {
-		case x < 16: // ---------------- plasma: Fuse
+	zero := big.NewInt(0)
+	withAmount := func() (*big.Int, types.ZenonTokenStandard) { // a withdrawal call that wrongly carries an amount
+		if c.R.Intn(15) == 0 {
+			return big.NewInt(1 + int64(c.R.Intn(5))), types.QsrTokenStandard
+		}
+		return zero, types.ZnnTokenStandard
+	}
+
+	genPlasma := func() {
+		if c.R.Intn(100) < 45 { // Fuse
 			from := pick(users)
 			am := qsr(int64(10 + c.R.Intn(120)))
 			tok := types.QsrTokenStandard
@@ -732,41 +905,47 @@ func contractHistory(c *Ctx, id int) {
 				am = qsr(int64(1000 + c.R.Intn(5000)))
 			}
 			call(from, types.PlasmaContract, tok, am, "Fuse", definition.ABIPlasma.PackMethodPanic(definition.FuseMethodName, pick(anyAddr)))
-		case x < 34: // ---------------- plasma: CancelFuse (owner / other / unknown id / repeated / with amount)
-			var id types.Hash
-			var from types.Address
-			am := big.NewInt(0)
-			tok := types.ZnnTokenStandard
-			y := c.R.Intn(10)
-			switch {
-			case y < 6 && len(r.fusions) > 0:
-				f := r.fusions[c.R.Intn(len(r.fusions))]
-				// prefer entries created in this history over the genesis ones (those feed the accounts' plasma)
-				for k := 0; k < 3 && f.ExpirationHeight == 0; k++ {
-					f = r.fusions[c.R.Intn(len(r.fusions))]
+			return
+		}
+		// CancelFuse: owner / other / unknown id / repeated / with amount
+		var id types.Hash
+		var from types.Address
+		y := c.R.Intn(10)
+		switch {
+		case y < 6 && len(r.fusions) > 0:
+			f := r.fusions[c.R.Intn(len(r.fusions))]
+			// prefer entries created in this history over the genesis ones (those feed the accounts' plasma)
+			for k := 0; k < 3 && f.ExpirationHeight == 0; k++ {
+				f = r.fusions[c.R.Intn(len(r.fusions))]
+			}
+			id, from = f.Id, f.Owner
+		case y < 8 && len(r.fusions) > 0:
+			f := r.fusions[c.R.Intn(len(r.fusions))]
+			id, from = f.Id, pick(users) // mostly not the owner
+		case y < 9 && len(r.deadIds) > 0:
+			id, from = r.deadIds[c.R.Intn(len(r.deadIds))], pick(users)
+			lkeys := make([]string, 0, len(r.locks))
+			for k := range r.locks {
+				lkeys = append(lkeys, k)
+			}
+			sort.Strings(lkeys)
+			for _, k := range lkeys { // the former owner repeats the cancel
+				if l := r.locks[k]; l.kind == "fusion" && strings.HasSuffix(l.key, "/"+h8z(id)) {
+					from = l.entitled
 				}
-				id, from = f.Id, f.Owner
-			case y < 8 && len(r.fusions) > 0:
-				f := r.fusions[c.R.Intn(len(r.fusions))]
-				id, from = f.Id, pick(users) // mostly not the owner
-			case y < 9 && len(r.deadIds) > 0:
-				id, from = r.deadIds[c.R.Intn(len(r.deadIds))], pick(users)
-				for _, l := range r.locks { // the former owner repeats the cancel
-					if l.kind == "fusion" && strings.HasSuffix(l.key, "/"+h8z(id)) {
-						from = l.entitled
-					}
-				}
-			default:
-				id, from = randomHash(), pick(users)
 			}
-			if c.R.Intn(15) == 0 {
-				am, tok = big.NewInt(1+int64(c.R.Intn(5))), types.QsrTokenStandard
-			}
-			if keyOf(from) == nil {
-				continue
-			}
-			call(from, types.PlasmaContract, tok, am, "CancelFuse", definition.ABIPlasma.PackMethodPanic(definition.CancelFuseMethodName, id))
-		case x < 48: // ---------------- stake: Stake
+		default:
+			id, from = randomHash(), pick(users)
+		}
+		am, tok := withAmount()
+		if keyOf(from) == nil {
+			return
+		}
+		call(from, types.PlasmaContract, tok, am, "CancelFuse", definition.ABIPlasma.PackMethodPanic(definition.CancelFuseMethodName, id))
+	}
+
+	genStake := func() {
+		if c.R.Intn(100) < 45 { // Stake
 			from := pick(users)
 			am := qsr(int64(1 + c.R.Intn(60)))
 			tok := types.ZnnTokenStandard
@@ -788,84 +967,230 @@ func contractHistory(c *Ctx, id int) {
 				tok = types.QsrTokenStandard
 			}
 			call(from, types.StakeContract, tok, am, "Stake", definition.ABIStake.PackMethodPanic(definition.StakeMethodName, dur))
-		case x < 66: // ---------------- stake: Cancel
+			return
+		}
+		var id types.Hash
+		var from types.Address
+		y := c.R.Intn(10)
+		switch {
+		case y < 6 && len(r.stakes) > 0:
+			s := r.stakes[c.R.Intn(len(r.stakes))]
+			id, from = s.Id, s.StakeAddress // includes already revoked entries (repeated cancel)
+		case y < 8 && len(r.stakes) > 0:
+			s := r.stakes[c.R.Intn(len(r.stakes))]
+			id, from = s.Id, pick(users)
+		default:
+			id, from = randomHash(), pick(users)
+		}
+		am, tok := withAmount()
+		if keyOf(from) == nil {
+			return
+		}
+		call(from, types.StakeContract, tok, am, "Cancel", definition.ABIStake.PackMethodPanic(definition.CancelStakeMethodName, id))
+	}
+
+	hashOf := func(ty uint8, pre []byte) []byte {
+		if ty == definition.HashTypeSHA256 {
+			return crypto.HashSHA256(pre)
+		}
+		return crypto.Hash(pre)
+	}
+	unlockCall := func(e *definition.HtlcInfo, from types.Address, pre []byte) {
+		am, tok := withAmount()
+		call(from, types.HtlcContract, tok, am, "Unlock", definition.ABIHtlc.PackMethodPanic(definition.UnlockHtlcMethodName, e.Id, pre))
+	}
+	genHtlc := func() {
+		y := c.R.Intn(100)
+		switch {
+		case y < 35: // Create
+			from := pick(users)
+			tok := types.ZnnTokenStandard
+			if c.R.Intn(2) == 0 {
+				tok = types.QsrTokenStandard
+			}
+			am := qsr(int64(1 + c.R.Intn(40)))
+			if c.R.Intn(8) == 0 {
+				am = big.NewInt(int64(1 + c.R.Intn(3)))
+			}
+			hashLocked := pick(users)
+			if c.R.Intn(4) == 0 {
+				hashLocked = pick(anyAddr)
+			}
+			now := frontierTime()
+			exp := now + 10*int64(4+c.R.Intn(40))
+			ty := uint8(c.R.Intn(2))
+			keyMax := []uint8{32, 32, 255, 8, 0, 40}[c.R.Intn(6)]
+			pre := make([]byte, []int{32, 32, 8, 0, 40, 33, 1}[c.R.Intn(7)])
+			c.R.Read(pre)
+			if int(keyMax) < len(pre) && c.R.Intn(5) != 0 {
+				keyMax = uint8(len(pre)) // mostly a preimage that fits (exactly)
+			}
+			lock := hashOf(ty, pre)
+			switch c.R.Intn(16) {
+			case 0:
+				exp = now + 10 + 10*int64(c.R.Intn(3)) // expires at / right after the receive: "already expired" boundary
+			case 1:
+				exp = now - 10*int64(c.R.Intn(5))
+			case 2:
+				exp = -exp
+			case 3:
+				ty = uint8(2 + c.R.Intn(254)) // invalid hash type
+			case 4:
+				lock = lock[:31] // wrong digest size
+			case 5:
+				lock = append(lock, 0)
+			case 6:
+				am = big.NewInt(0)
+			case 7:
+				exp = 1<<62 + int64(c.R.Intn(1000))
+			}
+			if b := call(from, types.HtlcContract, tok, am, "Create", definition.ABIHtlc.PackMethodPanic(definition.CreateHtlcMethodName, hashLocked, exp, ty, keyMax, lock)); b != nil {
+				r.preimages[b.Hash] = pre
+			}
+		case y < 70: // Unlock: hash-locked party / third party (proxy) / time-locked party; right, wrong, too long, empty preimage
+			if len(r.htlcs) == 0 && len(r.deadIds) == 0 {
+				return
+			}
+			var e *definition.HtlcInfo
+			if len(r.htlcs) > 0 && c.R.Intn(10) != 0 {
+				e = r.htlcs[c.R.Intn(len(r.htlcs))]
+			} else if len(r.deadIds) > 0 {
+				e = &definition.HtlcInfo{Id: r.deadIds[c.R.Intn(len(r.deadIds))], HashLocked: pick(users), TimeLocked: pick(users)}
+			} else {
+				e = &definition.HtlcInfo{Id: randomHash(), HashLocked: pick(users), TimeLocked: pick(users)}
+			}
+			from := e.HashLocked
+			switch c.R.Intn(6) {
+			case 0, 1:
+				from = pick(users)
+			case 2:
+				from = e.TimeLocked
+			}
+			if keyOf(from) == nil {
+				from = pick(users)
+			}
+			pre := r.preimages[e.Id]
+			switch c.R.Intn(12) {
+			case 0:
+				pre = make([]byte, len(pre))
+				c.R.Read(pre)
+			case 1:
+				pre = append(append([]byte{}, pre...), byte(c.R.Intn(256)))
+			case 2:
+				pre = []byte{}
+			case 3:
+				pre = make([]byte, 256+c.R.Intn(50))
+			}
+			unlockCall(e, from, pre)
+		case y < 90: // Reclaim: time-locked party / others, before / after expiry
 			var id types.Hash
 			var from types.Address
-			am := big.NewInt(0)
-			tok := types.ZnnTokenStandard
-			y := c.R.Intn(10)
 			switch {
-			case y < 6 && len(r.stakes) > 0:
-				s := r.stakes[c.R.Intn(len(r.stakes))]
-				id, from = s.Id, s.StakeAddress // includes already revoked entries (repeated cancel)
-			case y < 8 && len(r.stakes) > 0:
-				s := r.stakes[c.R.Intn(len(r.stakes))]
-				id, from = s.Id, pick(users)
+			case len(r.htlcs) > 0 && c.R.Intn(10) != 0:
+				e := r.htlcs[c.R.Intn(len(r.htlcs))]
+				id, from = e.Id, e.TimeLocked
+				if c.R.Intn(4) == 0 {
+					from = pick(users)
+				}
+			case len(r.deadIds) > 0:
+				id, from = r.deadIds[c.R.Intn(len(r.deadIds))], pick(users)
 			default:
 				id, from = randomHash(), pick(users)
 			}
-			if c.R.Intn(15) == 0 {
-				am = big.NewInt(1 + int64(c.R.Intn(5)))
+			am, tok := withAmount()
+			call(from, types.HtlcContract, tok, am, "Reclaim", definition.ABIHtlc.PackMethodPanic(definition.ReclaimHtlcMethodName, id))
+		case y < 95:
+			am, tok := withAmount()
+			call(pick(everyone), types.HtlcContract, tok, am, "DenyProxyUnlock", definition.ABIHtlc.PackMethodPanic(definition.DenyHtlcProxyUnlockMethodName))
+		default:
+			am, tok := withAmount()
+			call(pick(everyone), types.HtlcContract, tok, am, "AllowProxyUnlock", definition.ABIHtlc.PackMethodPanic(definition.AllowHtlcProxyUnlockMethodName))
+		}
+	}
+
+	// run to the edge of a lock — just before / exactly at / just after maturity — then the entitled party withdraws
+	genEdge := func() bool {
+		var open []*lockRec
+		keys := make([]string, 0, len(r.locks))
+		for k := range r.locks {
+			keys = append(keys, k)
+		}
+		sort.Strings(keys)
+		for _, k := range keys {
+			if l := r.locks[k]; l.paidAt == 0 && (l.matureH > n.Height() || (l.matureT > frontierTime() && l.matureT < frontierTime()+10*int64(budget))) {
+				open = append(open, l)
 			}
-			if keyOf(from) == nil {
-				continue
-			}
-			call(from, types.StakeContract, tok, am, "Cancel", definition.ABIStake.PackMethodPanic(definition.CancelStakeMethodName, id))
-		case x < 78: // ---------------- run to the edge of a lock: just before / exactly at / just after maturity, then the owner withdraws
-			var open []*lockRec
-			keys := make([]string, 0, len(r.locks))
-			for k := range r.locks {
-				keys = append(keys, k)
-			}
-			sort.Strings(keys)
-			for _, k := range keys {
-				if l := r.locks[k]; l.paidAt == 0 && (l.matureH > n.Height() || l.matureT > frontierTime()) {
-					open = append(open, l)
-				}
-			}
-			if len(open) == 0 {
-				continue
-			}
-			l := open[c.R.Intn(len(open))]
-			delta := int64(c.R.Intn(3)) - 1
-			// a send submitted at frontier F is confirmed in F+1 and received with F+1 as its frontier momentum
-			var need int64
-			switch l.kind {
-			case "fusion":
-				need = int64(l.matureH) + delta - 1 - int64(n.Height())
-			case "stake":
-				need = (l.matureT-frontierTime())/10 + delta - 1
-			}
-			if need < 0 || int(n.Height()-start)+int(need) > budget {
-				continue
-			}
-			if !advance(int(need)) {
-				return
-			}
-			parts := strings.Split(l.key, "/")
-			var idh types.Hash
-			found := false
-			switch l.kind {
-			case "fusion":
-				for _, f := range r.fusions {
-					if h8z(f.Id) == parts[len(parts)-1] && f.Owner == l.entitled {
-						idh, found = f.Id, true
-					}
-				}
-				if found {
-					call(l.entitled, types.PlasmaContract, types.ZnnTokenStandard, big.NewInt(0), "CancelFuse", definition.ABIPlasma.PackMethodPanic(definition.CancelFuseMethodName, idh))
+		}
+		if len(open) == 0 {
+			return true
+		}
+		l := open[c.R.Intn(len(open))]
+		delta := int64(c.R.Intn(3)) - 1
+		// a send submitted at frontier F is confirmed in F+1 and received with F+1 as its frontier momentum
+		var need int64
+		if l.kind == "fusion" {
+			need = int64(l.matureH) + delta - 1 - int64(n.Height())
+		} else {
+			need = (l.matureT-frontierTime())/10 + delta - 1
+		}
+		if need < 0 || int(n.Height()-start)+int(need) > budget {
+			return true
+		}
+		if !advance(int(need)) {
+			return false
+		}
+		parts := strings.Split(l.key, "/")
+		last := parts[len(parts)-1]
+		switch l.kind {
+		case "fusion":
+			for _, f := range r.fusions {
+				if h8z(f.Id) == last && f.Owner == l.entitled {
+					call(l.entitled, types.PlasmaContract, types.ZnnTokenStandard, zero, "CancelFuse", definition.ABIPlasma.PackMethodPanic(definition.CancelFuseMethodName, f.Id))
 					c.Hit(fmt.Sprintf("edge-fusion-delta%+d", delta))
 				}
-			case "stake":
-				for _, f := range r.stakes {
-					if h8z(f.Id) == parts[len(parts)-1] && f.StakeAddress == l.entitled {
-						idh, found = f.Id, true
-					}
-				}
-				if found {
-					call(l.entitled, types.StakeContract, types.ZnnTokenStandard, big.NewInt(0), "Cancel", definition.ABIStake.PackMethodPanic(definition.CancelStakeMethodName, idh))
+			}
+		case "stake":
+			for _, f := range r.stakes {
+				if h8z(f.Id) == last && f.StakeAddress == l.entitled {
+					call(l.entitled, types.StakeContract, types.ZnnTokenStandard, zero, "Cancel", definition.ABIStake.PackMethodPanic(definition.CancelStakeMethodName, f.Id))
 					c.Hit(fmt.Sprintf("edge-stake-delta%+d", delta))
 				}
+			}
+		case "htlc":
+			for _, e := range r.htlcs {
+				if h8z(e.Id) != last {
+					continue
+				}
+				if c.R.Intn(2) == 0 || keyOf(e.HashLocked) == nil {
+					call(e.TimeLocked, types.HtlcContract, types.ZnnTokenStandard, zero, "Reclaim", definition.ABIHtlc.PackMethodPanic(definition.ReclaimHtlcMethodName, e.Id))
+					c.Hit(fmt.Sprintf("edge-htlc-reclaim-delta%+d", delta))
+				} else {
+					call(e.HashLocked, types.HtlcContract, types.ZnnTokenStandard, zero, "Unlock", definition.ABIHtlc.PackMethodPanic(definition.UnlockHtlcMethodName, e.Id, r.preimages[e.Id]))
+					c.Hit(fmt.Sprintf("edge-htlc-unlock-delta%+d", delta))
+				}
+			}
+		}
+		return true
+	}
+
+	for s := 0; s < steps && !r.failed && int(n.Height()-start) < budget; s++ {
+		x := c.R.Intn(100)
+		switch {
+		case x < 20:
+			genPlasma()
+		case x < 40:
+			genStake()
+		case x < 65:
+			if withHtlc {
+				genHtlc()
+			} else if c.R.Intn(2) == 0 {
+				genPlasma()
+			} else {
+				genStake()
+			}
+		case x < 77:
+			if !genEdge() {
+				return
 			}
 		default:
 			if !advance(1 + c.R.Intn(3)) {
